@@ -43,3 +43,9 @@ Store/SpecInv.vos Store/SpecInv.vok Store/SpecInv.required_vos: Store/SpecInv.v 
 Store/SpecValid.vo Store/SpecValid.glob Store/SpecValid.v.beautified Store/SpecValid.required_vo: Store/SpecValid.v Store/Spec.vo Store/SpecInv.vo
 Store/SpecValid.vio: Store/SpecValid.v Store/Spec.vio Store/SpecInv.vio
 Store/SpecValid.vos Store/SpecValid.vok Store/SpecValid.required_vos: Store/SpecValid.v Store/Spec.vos Store/SpecInv.vos
+Store/Api.vo Store/Api.glob Store/Api.v.beautified Store/Api.required_vo: Store/Api.v Store/Spec.vo Store/SpecInv.vo LP/Cert.vo LP/CertSound.vo LP/Unique.vo
+Store/Api.vio: Store/Api.v Store/Spec.vio Store/SpecInv.vio LP/Cert.vio LP/CertSound.vio LP/Unique.vio
+Store/Api.vos Store/Api.vok Store/Api.required_vos: Store/Api.v Store/Spec.vos Store/SpecInv.vos LP/Cert.vos LP/CertSound.vos LP/Unique.vos
+Store/ApiInv.vo Store/ApiInv.glob Store/ApiInv.v.beautified Store/ApiInv.required_vo: Store/ApiInv.v Store/Spec.vo Store/SpecInv.vo Store/Api.vo LP/Cert.vo LP/CertSound.vo LP/Unique.vo
+Store/ApiInv.vio: Store/ApiInv.v Store/Spec.vio Store/SpecInv.vio Store/Api.vio LP/Cert.vio LP/CertSound.vio LP/Unique.vio
+Store/ApiInv.vos Store/ApiInv.vok Store/ApiInv.required_vos: Store/ApiInv.v Store/Spec.vos Store/SpecInv.vos Store/Api.vos LP/Cert.vos LP/CertSound.vos LP/Unique.vos
